@@ -88,6 +88,12 @@ def cells(quick):
 
 
 def job(D, geo, target, seed, cons=None, opts=None, mode="det"):
+    from .. import problems as P_
+
+    if cons == "halfx":
+        cons = P_.half_for("in", geo, D)
+    elif cons == "half_n":
+        cons = P_.half_for("in", geo, D, real="nan")
     o = {"max_fun_evals": 40 + 20 * D}
     if opts:
         o.update(opts)
@@ -120,7 +126,7 @@ def run(ctx):
     sink = E1Sink(rep, PID)
     Ds = (1, 2) if q else (1, 2, 3)
     base = [job(D, g, t, s, cons=c) for D in Ds for g in ("lin", "tight", "log", "lin2") for t in ("sphere_corner", "sphere_face", "sphere_in", "plateau")
-            for c in (None, "ball") for s in seeds]
+            for c in (None, "ball", "halfx", "annulus", "half_n") for s in seeds if not (q and c in ("annulus", "half_n") and t in ("sphere_face", "plateau"))]
     base += [job(D, g, "sphere_corner", seeds[0], mode=m, opts={"max_fun_evals": 60, "noise_final_samples": 2}) for D in Ds for g in ("lin",) for m in ("decl", "spec")]
     # off-grid hard bounds with the optimum on/beyond them, mesh re-expansion, poll points forced onto the mesh
     base += [job(D, g, "sphere_out", s, opts=dict(o, max_fun_evals=70), mode=m) for D in (1, 2, 3) for g in ("lin2", "log2") for m in ("det", "decl")
